@@ -117,9 +117,16 @@ def build_merge_late(recs, delim, probe=None):
     return conv
 
 
+EXOTIC_DELIMS = ["%3A", "%", "%%", "{}", "\\", " ", "é", "a"]   # characters that are special to formatting / escaping / the alphabet itself
+
+
 def units(tier, seed, nchunks=128, hist_depth=None):
     cfgs = configurations(tier)
     out = [{"tier": tier, "cfgs": [recs_to_json(c) for c in ch]} for ch in chunks(cfgs, nchunks)]
+    # a small configuration set under unusual delimiters
+    r0, r1, _ = record_pool()
+    small = [[r] for r in r0 if "a" not in r.prefix] + [[a, b] for a, b in it.combinations([r for r in r0 if r.prefix in ("", "x") and r.uri_prefix in ("x", "x:", "xy")], 2) if Model([a, b]).valid()]
+    out.append({"tier": tier, "cfgs": [recs_to_json(c) for c in small], "delims": EXOTIC_DELIMS, "qlen": 2})
     if hist_depth is None:
         hist_depth = 2
     if hist_depth:
@@ -237,7 +244,7 @@ def run_unit_with(check_config, prop, unit, ctx):
                 ctx.violation(f"{prop}/{sig}", msg, case)
         return
     for recs in unit["cfgs"]:
-        for d in DELIMS:
+        for d in unit.get("delims", DELIMS):
             case = {"recs": recs, "delim": d}
             if unit.get("qlen"):
                 case["qlen"] = unit["qlen"]
